@@ -157,7 +157,9 @@ def gen_case(rng, p, fn, sc, op, transport, workers, idx, thorough, stomp_unsub,
         items[rng.randrange(len(items))]["kind"] = "valid"
     return {"transport": transport, "workers": workers if transport == "nats" else 1, "fn": fn, "scope": sc["name"],
             "op": op["name"], "type": op["type"], "vars": vars_, "pattern": pattern, "items": items, "idx": idx,
-            "forced": bool(force)}
+            "forced": bool(force),
+            # a slow uplink of the subscriber's connection: Subscribe must not return before the broker knows the subscription
+            "sub_delay": (120 if transport == "nats" and pattern in ("plain", "herr") and idx % 3 == 0 else 0)}
 
 
 def build_script(rng, case, frames, topic):
@@ -235,7 +237,7 @@ def build_script(rng, case, frames, topic):
     expect = nvalid_before if pattern != "unsub_busy" else 1
     return {"transport": case["transport"], "workers": case["workers"], "scope": case["key"], "sop": case["op"],
             "vars": case["vars"], "script": script, "expect": expect, "hold": hold, "herr": herr,
-            "settle_ms": 150 if unsub_at is not None else 60}
+            "settle_ms": 150 if unsub_at is not None else 60, "sub_link_delay_ms": case.get("sub_delay", 0)}
 
 
 # ------------------------------------------------------------------------------------------------
@@ -430,6 +432,8 @@ def run_program(ctx, prog, lab_id, ncases, stats, jcases, jmeta, thorough, stomp
                 stats["transport/" + c["transport"]] += 1
                 stats["workers/%d" % c["workers"]] += 1
                 stats["pattern/" + c["pattern"]] += 1
+                if c.get("sub_delay"):
+                    stats["slow_subscriber_uplink_cases"] += 1
                 jc, problems = check_case(ctx, c, r, resp, stats, rep)
                 for why in problems[:3]:
                     ctx.violation("C07 oracle (%s, %d worker(s), %s): %s" % (c["transport"], c["workers"], c["pattern"], why),
